@@ -24,6 +24,11 @@ pub fn plan(projects: &[Project], opts: &Opts) -> Vec<Value> {
     let thorough = opts.tier == "thorough";
     let mut cases = vec![];
     for p in projects {
+        if p.id.starts_with("gen/huge/") {
+            // size is the point: exported once, fault-free, tables and indices compared; the code generator is not run
+            cases.push(json!({"kind": "write", "project": p.id, "out_fault": {"op": "none"}, "codegen": false}));
+            continue;
+        }
         cases.push(json!({"kind": "write", "project": p.id, "out_fault": {"op": "none"}, "codegen": true}));
         if !crate::corpus::VARIANT.is_empty() {
             continue; // other code-generator configurations: only the generated-code oracles differ
@@ -97,6 +102,14 @@ pub fn judge(case: &Value, reply: &Value) -> Vec<Violation> {
         };
         out.push(Violation { invariant: "table_index".into(), signature: kind.into(), detail: p });
         break;
+    }
+    if reply["result"]["status"] == "panic" && op == "none" {
+        // no fault injected, a project the parser accepts: the tables must be exported, whatever their text
+        out.push(Violation {
+            invariant: "ack_durable".into(),
+            signature: "write_to_dir panics fault-free: no table is exported for this text".into(),
+            detail: format!("{} at {}", reply["result"]["msg"].as_str().unwrap_or(""), reply["result"]["loc"].as_str().unwrap_or("")),
+        });
     }
     if reply["result"]["status"] == "ok" {
         if let Some(p) = reply["durable_problems"].as_array().and_then(|a| a.first()).and_then(|p| p.as_str()) {
